@@ -355,9 +355,10 @@ def _world():
         return o
     ja0 = curve("JA0", "near", [seg("a00", IN), seg("a01", OUT), seg("a02", ON)])
     ja1 = curve("JA1", "near", [seg("a10", IN)])
+    ja2 = curve("JA2", "near", [seg("a20", OUT)])
     jb0 = curve("JB0", "far", [seg("b00", OUT)])
     jb1 = curve("JB1", "near", [seg("b10", IN), seg("b11", OUT), seg("b12", ON)])
-    A = Obj("A", jordans=(ja0, ja1))
+    A = Obj("A", jordans=(ja0, ja1, ja2))
     Bs = Obj("B", jordans=(jb0, jb1))
     return A, Bs, status
 
@@ -407,7 +408,7 @@ def r01_2(ctx):
                            "closed other operand, intersection those in the open other operand; both operands treated "
                            "alike; index offset of the second operand consistent with the curve list handed on", floor=2)
     out.exhaustive = True
-    want = {"or_shapes": {"a01", "b00", "b11"}, "and_shapes": {"a00", "a10", "b10"}}
+    want = {"or_shapes": {"a01", "a20", "b00", "b11"}, "and_shapes": {"a00", "a10", "b10"}}
     for name in ("or_shapes", "and_shapes"):
         fn = ctx.fn(f"shape.FollowPath.{name}")
         try:
@@ -460,7 +461,7 @@ def r01_3(ctx):
             continue
         first_test = next((i for i, e in enumerate(events) if e[0] == "test"), len(events))
         splits = {(e[1], e[2]) for e in events[:first_test] if e[0] == "split"}
-        need = {("JA0", "JB1"), ("JA1", "JB1")}      # the pairs whose bounding boxes meet
+        need = {("JA0", "JB1"), ("JA1", "JB1"), ("JA2", "JB1")}      # the pairs whose bounding boxes meet
         norm = {tuple(sorted(p)) for p in splits}
         if {tuple(sorted(p)) for p in need} - norm:
             out.bad(fn.qname, "not every pair of boundary curves is split at its crossings before pieces are selected",
